@@ -1,17 +1,16 @@
 #!/bin/bash
-# usage: tools/try_seed.sh <dir with patch.diff + demo> <property> [tier]   — confirm a seeded change and run the check against it
+# usage: tools/try_seed.sh <dir with patch.diff + demo> <property> [tier]
+# confirms a seeded change (demo passes clean / fails changed, suite passes changed) in a scratch worktree and runs
+# the check against that worktree (VERIF_REPO + PYTHONPATH), so /repo itself stays untouched.
 D=$(realpath "$1"); P=$2; TIER=${3:-quick}
 WT=/tmp/wt/confirm-$$
 git -C /repo worktree add --detach $WT HEAD >/dev/null 2>&1 || exit 3
 demo=$(ls $D/demo_test.py $D/demo.py 2>/dev/null | head -1)
 rundemo() { if [[ $demo == *_test.py ]]; then (cd $WT && PYTHONPATH=$WT /venv/bin/python -m pytest -q -p no:cacheprovider -x $demo >/dev/null 2>&1); else (cd $WT && PYTHONPATH=$WT /venv/bin/python $demo >/dev/null 2>&1); fi; echo $?; }
+echo "== $D ($P)"
 echo "demo on clean tree: exit $(rundemo)"
 git -C $WT apply $D/patch.diff || { echo "patch does not apply"; git -C /repo worktree remove --force $WT; exit 3; }
 echo "demo with change:   exit $(rundemo)"
 (cd $WT && PYTHONPATH=$WT /venv/bin/python -m pytest -q -p no:cacheprovider --timeout=900 --continue-on-collection-errors 2>&1 | tail -1)
+(cd /verif && VERIF_REPO=$WT PYTHONPATH=$WT ./check $P --tier $TIER 2>&1 | grep -v conda | tail -4)
 git -C /repo worktree remove --force $WT
-# now the check against /repo with the change applied
-git -C /repo apply $D/patch.diff || exit 3
-(cd /verif && ./check $P --tier $TIER 2>&1 | grep -v conda | tail -4)
-git -C /repo checkout -- .
-git -C /repo status --short | head -3
